@@ -81,6 +81,8 @@ def run(ctx):
         ctx.violation("machk-build", "the extracted checker does not build: " + err[:200], {"broken": "extraction", "output": err}, found_input=False)
         return
     quick = ctx.tier == "quick"
+    from props import c02 as _c02
+    _c02.proofs(ctx, "C05.v", deps=("Machine/CallEquiv.vo",))   # property theorems: build + Print Assumptions audit
     rng = ctx.rng
     progs = [(n, s, f) for n, s, f in nm.corpus()]
     for i in range(100 if quick else 2000):
@@ -271,7 +273,7 @@ def run(ctx):
         "pairs_certified_in_coq": sum(1 for _, ok, _ in cres if ok), "pairs_certified_extracted": len(pairs),
         "variants": [" ".join(v) for v in STRICT_VARIANTS] + ([" ".join(v) for v in SLACK_VARIANTS] if have_slack else ["(short-circuit variants need BBisim: not built)"]),
         "compiler_verdicts_O0": dict(verdicts),
-        "theorems": ["Bisim.bisim_strict_sound_on", "Search.dfa_equiv_cert_on_sound", "BBisim.bbisim_sound", "BSearch.dfa_slack_cert_on_sound"],
+        "theorems": ["Bisim.bisim_strict_sound_on", "Search.dfa_equiv_cert_on_sound", "BBisim.bbisim_sound", "BSearch.dfa_slack_cert_on_sound", "CallEquiv.strict_cert_histories_agree", "CallEquiv.callers_agree_up_to_slack", "CallEquiv.callers_with_end_agree_up_to_slack", "Props/C05.v (5 theorems, Print Assumptions audited on every run)"],
         "checker_cmd": "ocaml/machk bisim (extracted) + coqc build/c05/cert_*.v",
     })
     ctx.samples += [{"program": p[0], "variant": " ".join(p[1]), "states": [len(p[3]["states"]), len(p[4]["states"])], "result": r[:40]} for p, r in list(zip(pairs, results))[::max(1, len(pairs) // 8)]][:10]
